@@ -275,7 +275,9 @@ def inputs_of(M):
 
 def b_builder(name):
     def b(a):
-        C = wrap(count_matrix(a).astype(float if a["prior"] is not None else np.int64), a["container"])
+        # float counts in half of the cases: no dtype-conversion copy then stands between the caller's (sparse) matrix
+        # and the arrays the builder works on
+        C = wrap(count_matrix(a).astype(float if (a["prior"] is not None or a["seed"] % 2) else np.int64), a["container"])
         if name == "mle":
             C = wrap(count_matrix(a), "dense")
         fn = getattr(builders, name)
@@ -417,6 +419,25 @@ def b_dist(name):
         else:
             X = X.astype("float64")
         y = X[a["k"] % len(X)].copy()
+        return (lambda: getattr(libdist, name)(X, y)), [X, y]
+    return b
+
+
+@st.composite
+def wide_args(draw):
+    return {"n": draw(st.integers(1, 15)), "d": draw(st.sampled_from([1024, 1025, 2048, 3000, 6000])),
+            "seed": draw(st.integers(0, 2 ** 31 - 1)), "k": draw(st.integers(0, 14))}
+
+
+def b_dist_wide(name):
+    """few, very wide rows (a handful of frames against a long feature vector): sums of thousands of terms whose
+    value would depend on the summation order if the features were split over threads"""
+    def b(a):
+        r = rs(a["seed"])
+        X = r.randn(a["n"], a["d"]) * np.exp(r.uniform(-6, 6, size=a["d"]))
+        if name == "hamming":
+            X = np.round(X).astype("int32")
+        y = X[a["k"] % len(X)][::-1].copy()
         return (lambda: getattr(libdist, name)(X, y)), [X, y]
     return b
 
@@ -658,6 +679,9 @@ ROUTINES = {
     "libdist.euclidean": (points_args(), b_dist("euclidean")),
     "libdist.manhattan": (points_args(), b_dist("manhattan")),
     "libdist.hamming": (points_args(), b_dist("hamming")),
+    "libdist.euclidean_wide": (wide_args(), b_dist_wide("euclidean")),
+    "libdist.manhattan_wide": (wide_args(), b_dist_wide("manhattan")),
+    "libdist.hamming_wide": (wide_args(), b_dist_wide("hamming")),
     "libdist.euclidean_out": (points_args(), b_dist_out("euclidean")),
     "libdist.manhattan_out": (points_args(), b_dist_out("manhattan")),
     "libdist.hamming_out": (points_args(), b_dist_out("hamming")),
@@ -683,7 +707,7 @@ ROUTINES = {
     "assigns_to_counts": (assigns_args(), b_counts),
 }
 LONG = ["joint_counts_long", "joint_counts_self_long", "libdist.euclidean_long", "libdist.hamming_long"]
-THREADED = {"joint_counts_long", "joint_counts_self_long", "libdist.euclidean_long", "libdist.hamming_long", "joint_counts", "joint_counts_self", "mi_matrix", "libdist.euclidean", "libdist.manhattan", "libdist.hamming",
+THREADED = {"libdist.euclidean_wide", "libdist.manhattan_wide", "libdist.hamming_wide", "joint_counts_long", "joint_counts_self_long", "libdist.euclidean_long", "libdist.hamming_long", "joint_counts", "joint_counts_self", "mi_matrix", "libdist.euclidean", "libdist.manhattan", "libdist.hamming",
             "assign_to_nearest_center", "kcenters", "kmedoids", "hybrid", "builders.mle"}
 
 
@@ -744,7 +768,7 @@ def run_case(case):
                 plain=describe(base), poisoned=describe(got), sites=sorted(rec.sites))
         require(snapshot(ins3) == b3, "routine %s modified an array passed to it (under fill)" % name)
     # (c) threads
-    tlist = sorted(set([case["threads"], 1])) if name not in LONG else [1, 2, 5, 16, 16, 7]
+    tlist = sorted(set([case["threads"], 1])) if name not in LONG and not name.endswith("_wide") else [1, 2, 5, 16, 16, 7]
     for t in tlist:
         t4, _ = build(args)
         with threadpool_limits(limits=t, user_api="openmp"):
@@ -780,24 +804,33 @@ def run_case(case):
             try:
                 obj_a = ta()
                 kept = canon(obj_a)
-                want_b = outcome(tb)
-                require(canon(obj_a) == kept, "a result returned by %s changed when the routine was called again on other "
-                        "data (the returned object aliases a buffer the library reuses)" % name,
-                        first=_desc(kept), now=_desc(canon(obj_a)))
-                lifecycle.append("kept_result")
                 same = (len(ins_a) == len(ins_b) and all(
                     isinstance(x, np.ndarray) and isinstance(y, np.ndarray) and x.shape == y.shape and x.dtype == y.dtype
                     and x.flags.writeable and x.dtype != object for x, y in zip(ins_a, ins_b)))
+                got_b = None
                 if same and ins_a:
+                    # IMMEDIATELY after the first call (nothing else may run in between: a one-entry cache keyed on the
+                    # argument object would be evicted): refill the argument arrays in place, call again
+                    for x, y in zip(ins_a, ins_b):
+                        x[...] = y
+                    got_b = outcome(ta)
+                # a returned object keeps its value while the routine runs on OTHER argument objects (results may
+                # legitimately be views of / the very arguments, so the refilled objects above are not used here)
+                t3, _ = build(args)
+                obj_a = t3()
+                kept3 = canon(obj_a)
+                outcome(tb)
+                require(canon(obj_a) == kept3, "a result returned by %s changed when the routine was called again on other "
+                        "data (the returned object aliases a buffer the library reuses)" % name,
+                        first=_desc(kept3), now=_desc(canon(obj_a)))
+                lifecycle.append("kept_result")
+                if got_b is not None:
                     # the oracle is a FRESH set of argument objects (same recipe) refilled with the same contents
                     # before its first call: the only difference is that `ta`'s objects were seen by an earlier call.
                     t2, ins_2 = build(args)
                     for x, y in zip(ins_2, ins_b):
                         x[...] = y
                     want_b = outcome(t2)
-                    for x, y in zip(ins_a, ins_b):
-                        x[...] = y
-                    got_b = outcome(ta)
                     require(got_b == want_b, "%s called again on the SAME argument objects after they were refilled in place "
                             "does not give the result that fresh objects with those contents give" % name,
                             got=describe(got_b), want=describe(want_b))
